@@ -23,15 +23,26 @@ for f in d["functions"]:
 by_file = collections.defaultdict(list)
 for (fl, l0, c0, l1, c1), cnt in reg.items():
     by_file[fl].append((l0, l1, cnt))
+
+def inline_test_start(src):
+    """1-based line of the first `#[cfg(test)]` that introduces an INLINE module (`mod x {`); a `#[cfg(test)] mod tests;`
+    declaration near the top of a file (math/src/field/*/mod.rs) does not make the rest of the file test code."""
+    for i, l in enumerate(src):
+        if l.strip().startswith("#[cfg(test)]"):
+            nxt = next((x.strip() for x in src[i + 1:i + 4] if x.strip() and not x.strip().startswith("#[")), "")
+            if nxt.startswith("mod ") and nxt.rstrip().endswith("{"):
+                return i + 1
+    return 10 ** 9
+
 def test_lines(path):
     """line numbers inside #[cfg(test)] modules (rough: from the attribute to the end of file)"""
     try:
         src = open(path).read().split("\n")
     except OSError:
         return set(), []
-    for i, l in enumerate(src):
-        if l.strip().startswith("#[cfg(test)]"):
-            return set(range(i + 1, len(src) + 2)), src
+    t0 = inline_test_start(src)
+    if t0 < 10 ** 9:
+        return set(range(t0, len(src) + 2)), src
     return set(), src
 # compact dump for lib/covunion.py (blind spots over all checks)
 dump = {}
